@@ -1125,6 +1125,49 @@ class LcGen(GovGen):
                 self.ops.append("restart")
                 self.tags.add("restart")
 
+    def scripted_permission_update(self):
+        """the owner of a destination service changes who may call it (`UpdateService` with the same name and details: no proposal,
+        effective at once): a source it now blocks must be turned away (recorded as begin-failed) on the running node as after a
+        restart, a source it no longer blocks must get through"""
+        r = self.r
+        d = r.choice(["c2:s1", "c1:s1", "c4:s1", "c2:s3"])
+        srcs = [x for x in SVC if x.split(":")[0] != d.split(":")[0] and x != "c3:s1"]
+        f, g = r.sample(srcs, 2)
+        dc, dsid = d.split(":")
+        name = f"svc-{dc}-{dsid}"
+
+        def probe(x):
+            i = self.idx.get((x, d), 1)
+            self.observe(x)
+            self.observe(d)
+            self.ops.append(f"block ibtp ca{x[1]} {x} {d} {i} req 0 - ok")
+            self.observe(x)
+            self.observe(d)
+            self.idx[(x, d)] = i + 1
+        if r.random() < 0.75:
+            # the executor caches a service record only when it saw an event for it in this process: a freeze and an activation of
+            # the destination (both approved) put its record into the cache first
+            for op in ("FreezeService", "ActivateService"):
+                self.submit(r.choice(ADMINS), f"service {op} s:{d} s:reason", "service-" + op[:-7].lower(), "service", d)
+                ref, kind, mod, obj = self.props[-1]
+                self.vote_all(ref, mod, obj, "approve")
+            self.observe(d)
+            self.tags.add("permission-update:cache-warm")
+        probe(f)
+        self.ops.append(f"block bvm ca{dc[1]} service UpdateService s:{d} s:{name} s:intro-{r.randint(0, 9)} s:1356:{f} s:details s:reason")
+        self.observe(d)
+        probe(f)
+        probe(g)
+        if r.random() < 0.5:
+            self.ops.append("restart")
+            self.tags.add("restart")
+            probe(f)
+        self.ops.append(f"block bvm ca{dc[1]} service UpdateService s:{d} s:{name} s:intro s:{'1356:' + g if r.random() < 0.5 else '~'} s:details s:reason")
+        self.observe(d)
+        probe(f)
+        probe(g)
+        self.tags.add("permission-update-scenario")
+
     def late_vote(self):
         if not self.pending:
             return self.govern()
@@ -1161,6 +1204,8 @@ def gen_c16(rng, n, tier):
             g.scripted_logout_of_activating_chain()
         elif k0 < 0.9:
             g.scripted_rule_update_under_freeze()
+        elif k0 < 0.97:
+            g.scripted_permission_update()
         for _ in range(r.randint(5, 14)):
             k = r.random()
             if k < 0.5:
@@ -1184,6 +1229,7 @@ def mon_c16(h, obs):
     status = {}        # (kind, id) -> latest status
     once_forbidden = set()
     chain_frozen = {}  # appchain -> an approved freeze / logout took effect and no activation has been approved since
+    blacklist = set(BLACKLIST)   # (source, destination) pairs blocked by the destination; follows successful permission updates
     blocks_since = {}  # (kind,id) -> number of block ops since its last observation
     steps = list(zip(h.ops, obs))
     for i, (op, o) in enumerate(steps):
@@ -1245,6 +1291,15 @@ def mon_c16(h, obs):
                         if (ca in ("frozen", "forbidden") or (chain_frozen.get(c_id) and ca not in set(avail.get("appchain", ["available"])))) \
                                 and ss in set(avail.get("service", ["available"])):
                             hits.append(Hit("C16/service-usable-on-unusable-appchain", f"appchain {c_id} is {ca} but its service {s_id} is {ss}", detail=op))
+        if ws[0] == "block" and len(ws) > 8 and ws[1] == "bvm" and ws[3] == "service" and ws[4] == "UpdateService" and " | " not in op:
+            m = mon_exec.BLK.match(o)
+            if m and m.group(2) and m.group(2).split()[0].startswith("S:"):
+                dst = ws[5][2:]
+                permits = ws[8][2:]
+                blacklist = {p for p in blacklist if p[1] != dst}
+                if permits not in ("~", ""):
+                    for x in permits.split(","):
+                        blacklist.add((x[5:] if x.startswith("1356:") else x, dst))
         if ws[0] == "block" and len(ws) > 2 and ws[1] == "ibtp" and " | " not in op:
             m = mon_exec.BLK.match(o)
             if not m or not m.group(2):
@@ -1261,10 +1316,10 @@ def mon_c16(h, obs):
             ret = rc.split(":")[1] if ":" in rc else ""
             if fs not in sa and ok:
                 hits.append(Hit("C16/unavailable-source-accepted", f"request {f}->{t} accepted ({rc}) while the source service is {fs}", detail=op))
-            dst_bad = ts not in sa or (f, t) in BLACKLIST
+            dst_bad = ts not in sa or (f, t) in blacklist
             if fs in sa and ok:
                 if dst_bad and ret != "begin_failure":
-                    hits.append(Hit("C16/unusable-destination-recorded-for-execution", f"request {f}->{t}: destination service is {ts}{' (blacklists the source)' if (f, t) in BLACKLIST else ''} but the receipt is {rc}", detail=op))
+                    hits.append(Hit("C16/unusable-destination-recorded-for-execution", f"request {f}->{t}: destination service is {ts}{' (blacklists the source)' if (f, t) in blacklist else ''} but the receipt is {rc}", detail=op))
                 if not dst_bad and ret == "begin_failure":
                     hits.append(Hit("C16/usable-destination-begin-failed", f"request {f}->{t}: both services available but the receipt is {rc}", detail=op))
             # cascade: a frozen / logged-out appchain has no usable service
